@@ -149,6 +149,14 @@ def fit_case(spec, tag=''):
             else:
                 oc = idx.get(E.strform(lab), -2)
             rows.append([rn, oc])
+        # row-wise purity: the rows that hold no missing value, transformed on their own, give the same outputs
+        keep = [i for i, v in enumerate(col) if not E.isnan(v)]
+        if keep and len(keep) < len(col):
+            sub = o.transform(X.iloc[keep].copy())
+            for j, i in enumerate(keep):
+                lab = list(sub['f'])[j]
+                oc = -1 if E.isnan(lab) else idx.get(E.strform(lab), -2)
+                rows.append([rownode[i], oc])
         case['out'] = rows
     except Exception as e:
         case['outcome'] = E.outcome_code(e)
